@@ -1,5 +1,6 @@
 import Cirbo.Proofs.Tseytin
 import Cirbo.Proofs.EvalCor
+import Cirbo.Proofs.TseytinTotal
 /-!
 # C05 — The circuit-to-CNF reduction is exact
 
@@ -7,7 +8,8 @@ import Cirbo.Proofs.EvalCor
 -- OBLIGATION: c05_template_exact
 -- OBLIGATION: c05_tseytin_exact
 -- OBLIGATION: c05_sat_query
--- PARTIAL: theorems are partial-correctness for the recursion (the model's recursion fuel = number of gates + 1; Python's recursion limit is not modelled). The SAT solver is a parameter assumed sound and complete.
+-- OBLIGATION: c05_tseytin_returns
+-- PARTIAL: every clause is proved on the model, incl. that the transformation returns on well-formed circuits (the recursion depth never exceeds the number of gates: c05_tseytin_returns; CPython's own recursion limit of 1000 frames is not modelled). The SAT solver is a parameter assumed sound and complete.
 -/
 namespace Cirbo
 open GateType
@@ -87,9 +89,18 @@ def exTs : Circuit :=
 example : (tseytin exTs none).toOption.map (·.2) = some [("a", 1), ("b", 2), ("x", 3), ("y", 4)] := by decide
 example : (tseytin exTs none).toOption.map (·.1.length) = some 12 := by decide
 
+/-- **the transformation returns** on every well-formed circuit and every selection of existing
+output indices: no `GateDoesntExistError`, no `IndexError` from a template, and the recursion never
+goes deeper than the number of gates -/
+theorem c05_tseytin_returns {c : Circuit} (h : WF c) (outs : Option (List Nat))
+    (hidx : ∀ l, outs = some l → ∀ i ∈ l, i < c.outputs.length) :
+    ∃ cnf lits, tseytin c outs = .ok (cnf, lits) := tseytin_total h outs hidx
+
 #print axioms c05_generated_templates_are_the_model
 #print axioms c05_template_exact
 #print axioms c05_tseytin_exact
 #print axioms c05_sat_query
+
+#print axioms c05_tseytin_returns
 
 end Cirbo
